@@ -500,6 +500,12 @@ def rule_c10(ctx, prog, rule="R19"):
         # ln calls dominated by the false edge of the zero test (MIR-level)
         cb = k["closure"]
         lns = [bb for bb, ct in cb.calls() if callee_name(ct) == "ln"]
+        if not lns and zb:
+            # the logarithm sits in a closure handed to a helper: the extracted decision tree (path-sensitive) already shows it
+            # only under the `!= 0` branch
+            ctx.ob("R10", "%s/ln-dominated" % name, True, cb.where(),
+                   "the logarithm occurs only in the non-zero branch of the extracted decision tree (it is evaluated through a helper)")
+            continue
         dom = bool(lns)
         for lb in lns:
             good = False
@@ -1594,6 +1600,142 @@ def _is_iteration_item(prog, pb, pe):
     return False
 
 
+def lane_uses_position_vector(prog, inner, lane):
+    """the lane closure takes the neighbour positions from a vector built once, in request order, in the enclosing routine:
+         V = [ (needs_lower(q) ? Some(lower_index(q, len)) : None, needs_higher(q) ? Some(higher_index(q, len)) : None)  for q in qs ]
+         for ((result, q), (lo, hi)) in results.zip(qs).zip(&V):  interpolate(lo.map(|p| index_map[p]), hi.map(|p| index_map[p]), q, len)
+    → (True, text) if exactly that; (False, why) if the shape is there but wrong; None if the lane closure does not have this shape"""
+    calls = [(bb, t) for bb, t in lane.calls() if callee_name(t) == "interpolate"]
+    if len(calls) != 1:
+        return None
+    a = [ds(x) for x in lane.call_arg_exprs(calls[0][0])]
+    if len(a) < 4 or not all(isinstance(a[i], tuple) and a[i][0] == "call" and a[i][1] == "map" and len(a[i][3]) == 2 for i in (0, 1)):
+        return None
+
+    def item_path(e):
+        """projection path of e below a `next(ITER)` call → (path outermost-last, iterator expression)"""
+        path = []
+        e = ds(e)
+        while isinstance(e, tuple) and e[0] in ("field", "downcast"):
+            if e[0] == "field":
+                path.append(str(e[2]))
+            e = ds(e[1])
+        if isinstance(e, tuple) and e[0] == "call" and e[1] == "next" and e[3]:
+            it = ds(e[3][0])
+            while isinstance(it, tuple) and it[0] == "call" and it[1] == "into_iter" and it[3]:
+                it = ds(it[3][0])
+            return list(reversed(path)), it
+        return None, None
+
+    def zip_operand(it, path):
+        """operand of a nested zip selected by the component path of its item (after the Some payload)"""
+        for i_, p_ in enumerate(path):
+            if not (isinstance(it, tuple) and it[0] == "call" and it[1] == "zip" and len(it[3]) == 2):
+                return it, path[i_:]
+            it = ds(it[3][int(p_)]) if p_ in ("0", "1") else None
+            if it is None:
+                return None, []
+        return it, []
+    qpath, qit = item_path(a[2])
+    if qpath is None or qpath[:1] != ["0"]:
+        return None
+    qop, qrest = zip_operand(qit, qpath[1:])
+    qroot = up(prog, lane, qop)[1] if qop is not None else None
+    if qrest or not (isinstance(ds(qroot), tuple) and ds(qroot)[0] == "param"):
+        return False, "the q handed to the strategy is not an element of the request list zipped with the results"
+    vec = None
+    for which in (0, 1):
+        xpath, xit = item_path(a[which][3][0])
+        if xpath is None or xit != qit or xpath[:1] != ["0"]:
+            return False, "neighbour %d does not come from the same zip item as q" % which
+        vop, vrest = zip_operand(xit, xpath[1:])
+        if vrest != [str(which)]:
+            return False, "neighbour %d is component %s of the position vector's item, expected %d" % (which, vrest, which)
+        vb, ve = up(prog, lane, vop)
+        ve = ds(ve)
+        while isinstance(ve, tuple) and ve[0] == "call" and ve[1] in ("iter", "into_iter", "deref", "as_slice") and ve[3]:
+            ve = ds(ve[3][0])
+        if vb is not inner or not (isinstance(ve, tuple) and ve[0] == "call" and ve[1] in ("with_capacity", "new")):
+            return False, "the positions are not taken from a vector built in the enclosing routine (`%s`)" % fmt(ve)[:60]
+        if vec is not None and ve != vec:
+            return False, "lower and higher positions come from different vectors"
+        vec = ve
+        # the mapping closure looks the position up in the lane's index map
+        cb, ups = closure_of(prog, a[which][3][1])
+        cr = ds(cb.return_expr()) if cb is not None else None
+        for _ in range(2):
+            if isinstance(cr, tuple) and cr[0] == "call" and cr[1] in ("clone", "cloned") and cr[3]:
+                cr = ds(cr[3][0])
+        look_ok = isinstance(cr, tuple) and cr[0] == "call" and cr[1] == "index" and len(cr[3]) == 2 and ds(cr[3][1])[:2] == ("param", 2)
+        if look_ok:
+            mb, me_ = up(prog, cb, cr[3][0])
+            me_ = ds(me_)
+            look_ok = mb is lane and isinstance(me_, tuple) and me_[0] == "call" and me_[1] == "get_many_from_sorted_mut_unchecked"
+        if not look_ok:
+            return False, "neighbour %d is not `index_map[&position]` of this lane's selection" % which
+    # the vector: one unconditional push per q, in request order, of (lower?, higher?)
+    tb = prog.tracked(inner)
+    pushes = []
+    for bb, t in tb.calls():
+        if callee_name(t) in ("push", "insert", "extend", "truncate", "pop", "clear", "reverse", "sort", "dedup", "swap", "retain"):
+            recv = ds(tb.call_arg_exprs(bb)[0])
+            base = recv
+            seen = 0
+            while isinstance(base, tuple) and base[0] == "phi" and seen < 4:
+                outs = [ds(tb.def_expr(base[1], d)) for d in base[3]]
+                outs = [o for o in outs if not (isinstance(o, tuple) and o[0] in ("phi", "mut"))]
+                base = outs[0] if len(outs) == 1 else None
+                seen += 1
+            if base == vec or (isinstance(base, tuple) and isinstance(vec, tuple) and base[:2] == vec[:2] and base[-1] == vec[-1]):
+                pushes.append((bb, callee_name(t)))
+    if len(pushes) != 1 or pushes[0][1] != "push":
+        return False, "the position vector is mutated by %s (exactly one push expected)" % [p_[1] for p_ in pushes]
+    pbb = pushes[0][0]
+    val = ds(tb.call_arg_exprs(pbb)[1])
+    if not (isinstance(val, tuple) and val[0] == "agg" and len(val[3]) == 2):
+        return False, "pushed value is not a (lower?, higher?) pair"
+    # loop: header = the `next` whose item feeds the pushed value; the push runs on every iteration
+    hdr = None
+    for bb, t in tb.calls():
+        if callee_name(t) == "next" and bb in tb.reachable_from(pbb) and pbb in tb.reachable_from(bb):
+            hdr = bb
+    if hdr is None:
+        return False, "the push is not inside a loop"
+    backs = [p_ for p_ in tb.preds(hdr) if tb.dominates(hdr, p_)]
+    if not backs or not all(tb.dominates(pbb, b_) for b_ in backs):
+        return False, "the push is not executed on every iteration"
+    it = ds(tb.call_arg_exprs(hdr)[0])
+    srcs = []
+    if isinstance(it, tuple) and it[0] == "phi":
+        srcs = [ds(tb.def_expr(it[1], d)) for d in it[3] if d[0] not in ("entry",)]
+        srcs = [x for x in srcs if not (isinstance(x, tuple) and x[0] in ("phi", "mut"))]
+    src = srcs[0] if len(srcs) == 1 else it
+    rb, re_, chain, bad = producer_chain(prog, tb, src)
+    if bad is not None or ds(re_) != ds(qroot) or any(ch not in ("iter", "into_iter", "view", "deref") for ch in chain):
+        return False, "the position vector is not built by one pass over the request list in request order (%s via %s)" % (fmt(ds(re_)), chain)
+    item = ("field", ("downcast", tb.call_expr(hdr), "Some"), "0")
+    for which, fn in ((0, "lower_index"), (1, "higher_index")):
+        comp = ds(val[3][which])
+        defs = []
+        if isinstance(comp, tuple) and comp[0] == "phi":
+            defs = [ds(tb.def_expr(comp[1], d)) for d in comp[3]]
+        else:
+            defs = [comp]
+        somes = [d for d in defs if isinstance(d, tuple) and d[0] == "agg" and d[2] == "Some"]
+        nones = [d for d in defs if isinstance(d, tuple) and d[0] == "agg" and d[2] == "None"]
+        if len(somes) + len(nones) != len(defs) or not somes:
+            return False, "component %d of the pushed pair is not Some(position) / None" % which
+        for sd in somes:
+            pv = ds(sd[3][0])
+            okp = isinstance(pv, tuple) and pv[0] == "call" and pv[1] == fn and len(pv[3]) == 2 and \
+                any(isinstance(x, tuple) and x[0] == "call" and x[1] == "next" for x in walk(pv[3][0])) and \
+                isinstance(ds(pv[3][1]), tuple) and ds(pv[3][1])[0] == "call" and ds(pv[3][1])[1] == "len_of"
+            if not okp:
+                return False, "component %d holds `%s`, expected %s(q, axis_len)" % (which, fmt(pv)[:60], fn)
+    return True, ("positions (needs_lower ? lower_index(q, len) : –, needs_higher ? higher_index(q, len) : –) are computed once per q in request "
+                  "order and zipped with (result, q); each lane maps them through its own index map")
+
+
 def rule_c18_quantiles(ctx, prog, rule="R13"):
     qa = prog.method("QuantileExt", "quantile_axis_mut")
     # .map(|a| a.index_axis_move(axis, 0))
@@ -1609,11 +1751,33 @@ def rule_c18_quantiles(ctx, prog, rule="R13"):
                 ok = ds(ax)[:2] == ("param", 2) and pb.key == qa.key and ds(cr[3][2]) == ("const", "usize", 0)
                 detail = "single = bulk with [q], then index_axis_move(axis, 0) along the caller's axis" if ok else \
                     "the single-q result is taken with index_axis_move(%s, %s)" % (fmt(ds(ax)), fmt(ds(cr[3][2])))
+    if not ok:
+        # `?` form:  let qs = self.quantiles_axis_mut(axis, &[q], i)?;  Ok(qs.index_axis_move(axis, 0))
+        for _, v in success_values(qa):
+            v = ds(v)
+            if isinstance(v, tuple) and v[0] == "call" and v[1] == "index_axis_move" and len(v[3]) == 3:
+                inner = unwrap_try(v[3][0])
+                ok = isinstance(inner, tuple) and inner[0] == "call" and inner[1] == "quantiles_axis_mut" and \
+                    ds(v[3][1])[:2] == ("param", 2) and ds(v[3][2]) == ("const", "usize", 0)
+                detail = "single = bulk with [q]?, then index_axis_move(axis, 0) along the caller's axis" if ok else \
+                    "the single-q result is `%s`" % fmt(v)[:120]
+        if ok and len(success_values(qa)) != 1:
+            ok = False
+            detail = "more than one success value"
     ctx.ob(rule, "quantile_axis_mut/removes-the-q-axis", ok, qa.where(), detail, what="single quantile is not slice 0 of the bulk result along axis")
     qm = prog.method("Quantile1dExt", "quantile_mut")
     finals = [ds(qm.def_expr(0, d)) for d in qm.reaching_defs(0, qm.exits()[0], "term")]
     ok = any(isinstance(f, tuple) and f[0] == "agg" and f[2] == "Ok" and ds(f[3][0])[0] == "call" and ds(f[3][0])[1] == "into_scalar"
              and unwrap_try(ds(f[3][0])[3][0])[1] == "quantile_axis_mut" for f in finals)
+    if not ok:
+        # map form:  self.quantile_axis_mut(Axis(0), q, i).map(|x| x.into_scalar())
+        for f in finals:
+            if isinstance(f, tuple) and f[0] == "call" and f[1] == "map" and len(f[3]) == 2:
+                inner = ds(f[3][0])
+                cbm, _ups = closure_of(prog, f[3][1])
+                if cbm is not None and isinstance(inner, tuple) and inner[0] == "call" and inner[1] == "quantile_axis_mut":
+                    crm = ds(cbm.return_expr())
+                    ok = isinstance(crm, tuple) and crm[0] == "call" and crm[1] == "into_scalar" and ds(crm[3][0])[:2] == ("param", 2) and len(finals) == 1
     ctx.ob(rule, "quantile_mut/into_scalar", ok, qm.where(), "= quantile_axis_mut(Axis(0), q, interpolate)?.into_scalar()" if ok else
            "1-D single quantile is not the scalar of the axis form", what="1-D wrapper differs")
     # the bulk closure: j-th output ↔ j-th q, push and lookup guarded by the same predicates
@@ -1645,6 +1809,11 @@ def rule_c18_quantiles(ctx, prog, rule="R13"):
             return out
         s_collect, s_lookup = sig(inner), sig(c)
         ok = s_collect == s_lookup and len(s_collect) == 4
+        if not ok and not s_lookup and len(s_collect) == 4:
+            pv = lane_uses_position_vector(prog, inner, c)
+            if pv is not None and pv[0]:
+                ok = True
+                s_lookup = s_collect
         ctx.ob(rule, "quantiles_axis_mut/push-lookup-agree", ok, c.where(),
                "indexes are collected and looked up under the same needs_lower/needs_higher(q, axis_len) and lower/higher_index(q, axis_len)" if ok else
                "collection uses %s, lookup uses %s" % (sorted(s_collect), sorted(s_lookup)), what="bulk quantile looks up an index it did not select")
@@ -1786,8 +1955,10 @@ def rule_moment_pipeline(ctx, prog, rule="R19"):
             raise StopIteration
         lp = T.Loop(tb)
         it = lp.iterator()
+        if it is None:
+            raise Unrecognised("loop without a recognisable iterator")
         il, item, iinit = it
-        accs = [l for l in lp.carried if l != il and tb.local_name(l)]
+        accs = [l for l in lp.carried if l != il and tb.local_name(l) and not (il is None and "adt:std::vec::Vec" in " ".join(tb.local_flags(l)))]
         if len(accs) != 1:
             raise Unrecognised("%d loop-carried accumulators" % len(accs))
         acc = accs[0]
@@ -1927,7 +2098,14 @@ def fn_term(prog, body, names, depth=0, pick_field=None, kernel_cls=None):
             return names[e[1]]
         cb = local_helper(e)
         if cb is not None:
-            return fn_term(prog, cb, {i + 1: K.term(a) for i, a in enumerate(e[3])}, depth + 1, kernel_cls=kernel_cls)
+            sub = {}
+            for i, a in enumerate(e[3]):
+                a2 = ds(a)
+                if isinstance(a2, tuple) and a2[0] == "fn":
+                    sub[i + 1] = ("fnval", a2[1].rsplit("::", 1)[-1])       # a function item handed over as a value
+                else:
+                    sub[i + 1] = K.term(a)
+            return fn_term(prog, cb, sub, depth + 1, kernel_cls=kernel_cls)
         if isinstance(e, tuple) and e[0] == "field":
             base = ds(e[1])
             cb = local_helper(base)
@@ -2066,6 +2244,11 @@ def rule_c01_interpolation(ctx, prog, rule="R19"):
                             la = up(prog, la[0], la[1])
                         lk[callee_name(ct)] = (qa == qarg, ds(up(prog, la[0], la[1])[1]) == le_ if la[0].is_closure else ds(la[1]) == le_)
             ok = q_is_elem and len_ok and st_ok and lk.get("lower_index") == (True, True) and lk.get("higher_index") == (True, True)
+            if not ok and not lk and q_is_elem and len_ok and st_ok:
+                pv = lane_uses_position_vector(prog, inner, c)
+                if pv is not None:
+                    ok = pv[0]
+                    lk = {"via position vector": pv[1]}
             detail = "*result_j = I::interpolate(index_map[lower_index(q_j, axis_len)], index_map[higher_index(q_j, axis_len)], q_j, axis_len)" if ok else \
                 "q is the zipped element=%s axis_len=len_of(data, axis)=%s stored into the paired result=%s lookups=%s" % (q_is_elem, len_ok, st_ok, lk)
     ctx.ob("R13", "quantiles_axis_mut/applies-strategy-to-neighbours", ok, inner.where(), detail, what="bulk quantile does not apply the strategy to the looked-up neighbours")
